@@ -78,23 +78,37 @@ Proof.
   intros l1 l2 v H1 H2 W1 W2 D1 D2.
   do 8 (destruct l1 as [|? l1]; [discriminate H1|]). destruct l1; [|discriminate H1].
   do 8 (destruct l2 as [|? l2]; [discriminate H2|]). destruct l2; [|discriminate H2].
-  unfold de64 in D1, D2. cbn [de32 skipn] in D1, D2.
-  injection D1 as D1. injection D2 as D2.
   unfold wf_bytes in W1, W2. cbn [forallb] in W1, W2.
   rewrite !andb_true_iff in W1, W2. unfold is_byte in W1, W2.
   repeat match goal with H : _ /\ _ |- _ => destruct H end.
   repeat match goal with H : (_ <? _) = true |- _ => apply N.ltb_lt in H end.
-  repeat (f_equal; [lia|]). reflexivity.
+  unfold de64 in D1, D2. cbn [skipn] in D1, D2.
+  destruct (de32 [n; n0; n1; n2; n3; n4; n5; n6]) as [lo1|] eqn:L1; [|discriminate D1].
+  destruct (de32 [n3; n4; n5; n6]) as [hi1|] eqn:U1; [|discriminate D1].
+  destruct (de32 [n7; n8; n9; n10; n11; n12; n13; n14]) as [lo2|] eqn:L2; [|discriminate D2].
+  destruct (de32 [n11; n12; n13; n14]) as [hi2|] eqn:U2; [|discriminate D2].
+  injection D1 as D1. injection D2 as D2.
+  assert (B1 : lo1 < 4294967296) by (eapply de32_bound; [| | | |exact L1]; assumption).
+  assert (B2 : lo2 < 4294967296) by (eapply de32_bound; [| | | |exact L2]; assumption).
+  assert (Hlo : lo1 = lo2) by lia.
+  assert (Hhi : hi1 = hi2) by lia.
+  subst lo2 hi2.
+  assert (E1 : le32 lo1 = [n; n0; n1; n2]) by (apply le32_de32; assumption).
+  assert (E2 : le32 lo1 = [n7; n8; n9; n10]) by (apply le32_de32; assumption).
+  assert (E3 : le32 hi1 = [n3; n4; n5; n6]) by (apply le32_de32; assumption).
+  assert (E4 : le32 hi1 = [n11; n12; n13; n14]) by (apply le32_de32; assumption).
+  rewrite E1 in E2. rewrite E3 in E4. injection E2 as -> -> -> ->. injection E4 as -> -> -> ->.
+  reflexivity.
 Qed.
 
-Lemma de64_len8 : forall l, length l = 8%nat -> exists v, de64 l = Some v.
+Lemma de64_len8 : forall l : bytes, length l = 8%nat -> exists v, de64 l = Some v.
 Proof.
   intros l H.
   do 8 (destruct l as [|? l]; [discriminate H|]).
   unfold de64. cbn [de32 skipn]. eexists. reflexivity.
 Qed.
 
-Lemma ikey_tail_length : forall k, (8 <= length k)%nat -> length (skipn (length k - 8) k) = 8%nat.
+Lemma ikey_tail_length : forall k : bytes, (8 <= length k)%nat -> length (skipn (length k - 8) k) = 8%nat.
 Proof. intros k H. rewrite skipn_length. lia. Qed.
 
 (* ------------------------------------------------------------------ *)
@@ -125,13 +139,13 @@ Qed.
 Theorem ikey_compare_lt_trans : forall a b c,
   ikey_compare a b = Lt -> ikey_compare b c = Lt -> ikey_compare a c = Lt.
 Proof.
-  intros a b c. unfold ikey_compare.
-  destruct (bytes_compare (ikey_user a) (ikey_user b)) eqn:Hab; try discriminate;
-  destruct (bytes_compare (ikey_user b) (ikey_user c)) eqn:Hbc; try discriminate;
-  intros H1 H2.
+  intros a b c H1 H2. unfold ikey_compare in *.
+  destruct (bytes_compare (ikey_user a) (ikey_user b)) eqn:Hab; [| |discriminate H1];
+  destruct (bytes_compare (ikey_user b) (ikey_user c)) eqn:Hbc; try discriminate H2.
   - apply bytes_compare_eq_iff in Hab. apply bytes_compare_eq_iff in Hbc.
     rewrite Hab, Hbc, bytes_compare_refl.
-    apply N.compare_lt_iff in H1. apply N.compare_lt_iff in H2. apply N.compare_lt_iff. lia.
+    apply N.compare_lt_iff in H1. apply N.compare_lt_iff in H2. apply N.compare_lt_iff.
+    eapply N.lt_trans; eassumption.
   - apply bytes_compare_eq_iff in Hab. rewrite Hab, Hbc. reflexivity.
   - apply bytes_compare_eq_iff in Hbc. rewrite <- Hbc, Hab. reflexivity.
   - rewrite (bytes_compare_lt_trans _ _ _ Hab Hbc). reflexivity.
